@@ -10,16 +10,19 @@ open SamVerif.Backends
 #print axioms i31_roundtrip_counterexample
 #print axioms i31_roundtrip_iff
 #print axioms i31_roundtrip_partial
-#print axioms strconst_agree_counterexample
-#print axioms tsDecode_clean
+#print axioms lexAccepts_wellEscQ
+#print axioms content_wellEsc
+#print axioms cook_escape
 #print axioms utf8_roundtrip
 #print axioms strconst_agree_content
-#print axioms strconst_agree_partial
+#print axioms strconst_agree
 #print axioms vec_step_sim
 #print axioms vec_refines
 #print axioms vec_agree_counterexample
 #print axioms vec_agree_partial
 #print axioms vec_fail_coincide
+#print axioms vec_agree_ref
+#print axioms vec_eq_agree_ref
 #print axioms capacity_ge_length
 #print axioms reserve_capacity
 #print axioms tsVecEq_spec
@@ -32,3 +35,6 @@ open SamVerif.Backends
 #print axioms wasm_toInt_fromInt
 #print axioms ts_toInt_fromInt
 #print axioms toInt_fromInt
+#print axioms ref_eq_agree
+#print axioms loose_eq_counterexample
+#print axioms loose_eq_iff
